@@ -646,12 +646,12 @@ func (v Value) Equals(b Value) bool {
 	switch {
 	case v.t == TypeNil && b.t != TypeNil: // nil == x is x == nil
 		return b.Equals(v)
-	case v.t == TypeBool:
-		return v.num == b.num
+	case v.t == TypeBool: // (values of different kinds meet in any-typed variables: they are never equal)
+		return b.t == TypeBool && v.num == b.num
 	case (v.t & TypeFloat64) > 0:
-		return v.num == b.num
+		return b.t != TypeNil && b.t <= numericBitsMask && v.num == b.num
 	case v.t == TypeString:
-		return v.value.(stringT) == b.value.(stringT)
+		return b.t == TypeString && v.value.(stringT) == b.value.(stringT)
 	case v.t.base() == TypeStruct, v.t == TypeFunc:
 		return (b.t == TypeNil && v.value == nil) || v.value == b.value
 	case v.t == TypeNil && b.t == TypeNil:
